@@ -312,3 +312,50 @@ func Flush(completed bool) {
 		fmt.Fprintln(os.Stderr, "evid: write:", err)
 	}
 }
+
+// ---------------------------------------------------------------- watchdog for calls that must terminate
+
+var watch struct {
+	mu      sync.Mutex
+	started bool
+	active  bool
+	since   time.Time
+	slot    string
+	replay  any
+	what    string
+}
+
+// WatchLimit is the time after which a watched call counts as hung (expected run times are far below 1 ms).
+var WatchLimit = 30 * time.Second
+
+// Watch marks the start of a call that must return; Unwatch its end. If a watched call is still running
+// after WatchLimit the violation is recorded with its replay and the process exits with status 1.
+func Watch(slot, what string, replay any) {
+	watch.mu.Lock()
+	watch.active, watch.since, watch.slot, watch.replay, watch.what = true, time.Now(), slot, replay, what
+	if !watch.started {
+		watch.started = true
+		go func() {
+			for {
+				time.Sleep(500 * time.Millisecond)
+				watch.mu.Lock()
+				hung := watch.active && time.Since(watch.since) > WatchLimit
+				slot, rp, what := watch.slot, watch.replay, watch.what
+				watch.mu.Unlock()
+				if hung {
+					Pending(slot, map[string]any{"slot": slot, "message": fmt.Sprintf("%s did not return within %v", what, WatchLimit), "case": rp})
+					Flush(false)
+					fmt.Printf("watchdog: %s did not return within %v\n", what, WatchLimit)
+					os.Exit(1)
+				}
+			}
+		}()
+	}
+	watch.mu.Unlock()
+}
+
+func Unwatch() {
+	watch.mu.Lock()
+	watch.active = false
+	watch.mu.Unlock()
+}
